@@ -1,10 +1,5 @@
-// UNIT locks — C16: user callbacks (event listener, weighter, filter, the pipe that leads to the disk tier's admission
-// filter) are called only while no shard lock is held. The lifetime of every lock guard in the functions below is
-// made explicit by rule lock-scope (guard binding + ghost counter `verif_locks`); every callback stand-in REQUIRES
-// the counter to be zero at the call. Together with unit shard (every record that leaves the index under the lock is
-// kept alive on the garbage list / in the returned handle, so no key/value destructor runs under the lock) this is the
-// "garbage after the guard" discipline of RawCache. Not covered: lock ORDER between threads (schedules), the in-flight
-// table mutex inside emplace, destructors run by `Arc` reference counting itself.
+// UNIT handles — every successful lookup hands the record to exactly one handle (C18, C05): see the comment at the regions.
+// The stand-ins are those of unit locks (the lookups run under the shard locks).
 #![allow(unused_imports, unused_variables, dead_code, unused_mut, unused_must_use, unused_braces)]
 use vstd::prelude::*;
 verus! {
@@ -153,84 +148,39 @@ impl CacheT {
                 invariant verif_locks == 0, // @label no_shard_lock_is_held_while_waiters_listeners_and_pipe_are_served
 //@end
 
-// ---- RawCache::insert_with_properties_inner (whole): weighter and filter run before any shard lock is taken
-//@region foyer-memory/src/raw.rs :: impl~^impl<E, S, I> RawCache<E, S, I> where/fn insert_with_properties_inner name=insert_with_properties_inner whole=1 rules=lock-scope,let-chain sub=@\(self\.inner\.weighter\)\(@self.inner.weighter.call(Ghost(verif_locks), @ sub=@\(self\.inner\.filter\)\(@self.inner.filter.call(Ghost(verif_locks), @ sub=@(?s)Arc::new\(Record::new\(Data \{.*?\}\)\)@verif_record(key, value, properties, hash, weight)@
+// ---- RawCache::get and RawCache::touch (C18, C05): a lookup that finds the record has raised its reference count and
+// acquired it in the eviction container (under LRU: moved it to the pin list) -- unit shard, get_inner / get_mutable.
+// Both are given back only by `Drop for RawCacheEntry` (unit shard, entry_last_drop). So every successful lookup must
+// hand the record to exactly one handle, also when the caller only wants to know whether the key was there (touch):
+// otherwise the entry stays pinned and referenced for ever and the shard can no longer be brought back within capacity.
+// The handle constructions are counted in a ghost variable (rule handle-ctor).
+//@region foyer-memory/src/raw.rs :: impl~^impl<E, S, I> RawCache<E, S, I> where/fn get name=get whole=1 rules=lock-scope,option-map,handle-ctor sub=@E::acquire\(\)@verif_acquire_op()@
 //@head
-    fn insert_with_properties_inner(&self, key: u64, value: u64, mut properties: CachePropsT, source: Source) -> (r: EntryT)
+    fn get(&self, key: &u64) -> (r: Option<RawCacheEntry>)
         requires shards_ok(self),
 //@prologue
         let ghost mut verif_locks: int = 0;
+        let ghost mut verif_handles: int = 0;
+        let verif_r = {
+//@tail
+        };
+        assert(verif_r is Some ==> verif_handles == 1); // @label a_successful_lookup_hands_the_record_to_exactly_one_handle
+        verif_r
 //@end
-
-// ---- RawCache::evict_all (whole)
-//@region foyer-memory/src/raw.rs :: impl~^impl<E, S, I> RawCache<E, S, I> where/fn evict_all name=evict_all whole=1 rules=lock-scope,for-tuple-pattern sub=@listener\.on_leave\(@listener.on_leave(Ghost(verif_locks), @ sub=@self\.pipe\.send\(@self.pipe.send(Ghost(verif_locks), @
+//@region foyer-memory/src/raw.rs :: impl~^impl<E, S, I> RawCache<E, S, I> where/fn touch name=touch whole=1 rules=lock-scope,option-map,handle-ctor sub=@E::acquire\(\)@verif_acquire_op()@
 //@head
-    fn evict_all(&self)
-//@prologue
-        let ghost mut verif_locks: int = 0;
-//@loop 1 iter=it
-            invariant verif_locks == 0, // @label no_shard_lock_is_held_while_waiters_listeners_and_pipe_are_served
-//@loop 2 iter=it2
-                invariant verif_locks == 0, // @label no_shard_lock_is_held_while_waiters_listeners_and_pipe_are_served
-//@end
-
-// ---- RawCache::flush (whole)
-//@region foyer-memory/src/raw.rs :: impl~^impl<E, S, I> RawCache<E, S, I> where/fn flush name=flush whole=1 rules=lock-scope,for-tuple-pattern,de-async sub=@listener\.on_leave\(@listener.on_leave(Ghost(verif_locks), @ sub=@self\.pipe\.flush\(@self.pipe.flush(Ghost(verif_locks), @ sub=@garbages\.into_iter\(\)\.map\(\|\(_, record\)\| Piece::new\(record\)\)\.collect_vec\(\)@pieces_of(garbages)@
-//@head
-    fn flush(&self)
-//@prologue
-        let ghost mut verif_locks: int = 0;
-//@loop 1 iter=it
-            invariant verif_locks == 0, // @label no_shard_lock_is_held_while_waiters_listeners_and_pipe_are_served
-//@loop 2 iter=it2
-                invariant verif_locks == 0, // @label no_shard_lock_is_held_while_waiters_listeners_and_pipe_are_served
-//@end
-
-// ---- RawCache::remove (whole): the record is removed and wrapped under the lock, the listener runs after it
-//@region foyer-memory/src/raw.rs :: impl~^impl<E, S, I> RawCache<E, S, I> where/fn remove name=remove whole=1 rules=option-map,lock-scope,option-inspect sub=@listener\.on_leave\(@listener.on_leave(Ghost(verif_locks), @
-//@head
-    fn remove(&self, key: &u64) -> (r: Option<RawCacheEntry>)
+    fn touch(&self, key: &u64) -> (r: bool)
         requires shards_ok(self),
 //@prologue
         let ghost mut verif_locks: int = 0;
-//@end
-}
-
-impl InnerT {
-// ---- RawCacheInner::clear (whole): every shard is cleared under its own lock, the listener runs after all of them
-//@region foyer-memory/src/raw.rs :: impl~^impl<E, S, I> RawCacheInner<E, S, I> where/fn clear name=clear whole=1 rules=lock-scope sub=@listener\.on_leave\(@listener.on_leave(Ghost(verif_locks), @ presub=@(?s)self\.shards\s*\.iter\(\)\s*\.map\(\|shard\| shard\.write\(\)\)\s*\.for_each\(\|mut shard\| shard\.clear\(&mut garbages\)\);@for shard in self.shards.iter() { shard.write().clear(&mut garbages); }@
-//@head
-    fn clear(&self)
-//@prologue
-        let ghost mut verif_locks: int = 0;
-//@loop 1 iter=it
-            invariant verif_locks == 0, // @label no_shard_lock_is_held_while_waiters_listeners_and_pipe_are_served
-//@loop 2 iter=it2
-                invariant verif_locks == 0, // @label no_shard_lock_is_held_while_waiters_listeners_and_pipe_are_served
-//@end
-}
-
-// ---- RawCache::resize, body of the per-shard thread: capacity update + evict under the lock, dispatch after it
-//@region foyer-memory/src/raw.rs :: impl~^impl<E, S, I> RawCache<E, S, I> where/fn resize name=resize_thread start=/std::thread::spawn\(move \|\| \{/ body=1 rules=result-inspect,lock-scope,for-tuple-pattern sub=@listener\.on_leave\(@listener.on_leave(Ghost(verif_locks), @ sub=@pipe\.send\(@pipe.send(Ghost(verif_locks), @
-//@head
-fn resize_thread(inner: &InnerT, pipe: &PipeT, i: usize, shard_capacity: usize) -> (r: core::result::Result<(), ErrT>)
-    requires i < inner.shards@.len(),
-//@prologue
-    let ghost mut verif_locks: int = 0;
-//@loop 1 iter=it
-                            invariant verif_locks == 0, // @label no_shard_lock_is_held_while_waiters_listeners_and_pipe_are_served
+        let ghost mut verif_handles: int = 0;
+        let verif_r = {
+//@tail
+        };
+        assert(verif_r ==> verif_handles == 1); // @label a_successful_touch_hands_the_record_to_a_handle_that_gives_the_reference_and_the_pin_back
+        verif_r
 //@end
 
-// ---- Drop for RawCacheEntry (whole): phantom hand-off without any lock; release under the shard lock calls no user code
-pub struct DropEntryT { pub pipe: PipeT, pub record: RecT, pub inner: InnerT, pub source: Source }
-impl DropEntryT {
-//@region foyer-memory/src/raw.rs :: impl~Drop for RawCacheEntry/fn drop name=entry_drop whole=1 rules=lock-scope sub=@listener\.on_leave\(@listener.on_leave(Ghost(verif_locks), @ sub=@self\.pipe\.send\(@self.pipe.send(Ghost(verif_locks), @ sub=@E::release\(\)@verif_release_op()@
-//@head
-    fn entry_drop(&mut self)
-        requires old(self).inner.shards@.len() > 0,
-//@prologue
-        let ghost mut verif_locks: int = 0;
-//@end
 }
 
 } // verus!
